@@ -155,12 +155,33 @@ EmitFO(f) == PrintT(ToJson([k |-> "fwd", f |-> f, large |-> IsLargeFO(f.ot, f.to
                             rpy |-> EncForwardOpenReply(f, <<64, 66, 15, 0>>, <<128, 132, 30, 0>>), fail |-> EncForwardOpenFail(f, 1, <<256>>),
                             close |-> EncForwardClose(f), closerpy |-> EncForwardCloseReply(f)]))
 
+\* Common Packet Format lists of 0..3 items: every item kind the library knows plus items it does not (kept as raw octets)
+RawItem(ty, raw) == [kind |-> "raw", type |-> ty, raw |-> raw, b |-> EncCPFItem(ty, raw)]
+CPFItems ==
+  LET msg == EncReq(WCfg, Q("read", 1, "sym", 0, 1, 0, "INT", <<>>, <<>>)) IN
+  { [kind |-> "null", type |-> 0, b |-> NullAddr],
+    [kind |-> "ucdata", type |-> 178, msg |-> msg, b |-> UnconnData(msg)],
+    [kind |-> "connaddr", type |-> 161, cid |-> <<4, 3, 2, 129>>, b |-> ConnAddr(<<4, 3, 2, 129>>)],
+    [kind |-> "conndata", type |-> 177, seq |-> 65535, msg |-> msg, b |-> ConnData(65535, msg)],
+    [kind |-> "services", type |-> 256, item |-> [version |-> 1, capability |-> 288, name |-> <<67, 111, 109>>],
+     b |-> EncServicesItem([version |-> 1, capability |-> 288, name |-> <<67, 111, 109>>])],
+    [kind |-> "legacy", type |-> 1, item |-> [version |-> 1, family |-> 2, port |-> 44818, addr |-> <<192, 168, 5, 253>>, text |-> <<49, 57, 50, 46, 49, 54, 56, 46, 53, 46, 50, 53, 51>>],
+     b |-> EncLegacyItem([version |-> 1, family |-> 2, port |-> 44818, addr |-> <<192, 168, 5, 253>>, text |-> <<49, 57, 50, 46, 49, 54, 56, 46, 53, 46, 50, 53, 51>>])],
+    RawItem(32768, <<0, 2, 175, 18, 10, 0, 0, 1, 0, 0, 0, 0, 0, 0, 0, 0>>),        \* 0x8000 socket address info, O->T
+    RawItem(32769, <<0, 2, 8, 174, 239, 192, 1, 2, 0, 0, 0, 0, 0, 0, 0, 0>>),      \* 0x8001 socket address info, T->O
+    RawItem(134, <<1>>), RawItem(134, <<>>) }
+CPFDomain == { <<>> } \cup { <<a>> : a \in CPFItems } \cup { <<a, c>> : a \in CPFItems, c \in CPFItems }
+              \cup { <<a, c, d>> : a \in { x \in CPFItems : x.kind \in {"null", "connaddr"} }, c \in { x \in CPFItems : x.kind \in {"ucdata", "conndata"} },
+                                  d \in { x \in CPFItems : x.kind = "raw" } }
+EmitCPF(items) == PrintT(ToJson([k |-> "cpf", items |-> items, b |-> EncCPF([ i \in 1 .. Len(items) |-> items[i].b ])]))
+
 ASSUME CASE Which = "epath"  -> \A p \in Paths : EmitEPath(p)
          [] Which = "status" -> \A x \in StatusDomain : EmitStatus(x)
          [] Which = "typed"  -> \A x \in TypedDomain : EmitTyped(x)
          [] Which = "logix"  -> (\A r \in WReqs : EmitLogix(r)) /\ (\A ms \in Bundles : EmitBundleW(ms))
          [] Which = "ucsend" -> \A x \in UCDomain : EmitUC(x)
          [] Which = "frames" -> \A f \in FrameDomain \cup ListFrames : EmitFrame(f)
+         [] Which = "cpf" -> \A x \in CPFDomain : EmitCPF(x)
          [] Which = "fwd" -> \A f \in (IF Deep THEN FODomain ELSE FOSmall) : EmitFO(f)
 
 VARIABLE dummy
